@@ -379,7 +379,7 @@ def evalCall (st : StructTable) (nf : Nat) (insOf : String → List Param) (run 
       let r := run c.callee (path ++ [c.id]) forks (mkArgs st nf avs none)
       (ty, r.1, r.2)
     else if !splitsAgree st env c then
-      (ty, .dnull, [⟨⟨path ++ [c.callee], forks⟩, .null, true, true⟩])
+      (ty, .dnull, [⟨⟨path ++ [c.id], forks⟩, .null, true, true⟩])
     else
       let ixs := callIndices st env c
       if ixs.isEmpty then
